@@ -94,4 +94,18 @@ PROPS = {
         quick=dict(checks=400, timeout=1200),
         thorough=dict(checks=700, shards=16, timeout=3000),
     ),
+    "C16": dict(
+        run="^TestC16$",
+        level="exploration",
+        rule=("sequences of 1-12 requests over all 25 Publisher/Subscriber RPCs (22 implemented, 3 unimplemented, StreamingPull openings included), every field drawn from a boundary domain "
+              "(names: live / deleted / unknown / wrong kind / empty / malformed; int32: min, -1, 0, 1, max; durations and timestamps: nil, zero, negative, huge, out-of-range nanos; nested "
+              "messages absent / empty / filled; ack ids live / acked / foreign / unknown / malformed; update masks nil / empty / unknown / repeated; payloads JSON / non-JSON / empty; page "
+              "tokens valid / garbage) against a populated server with the production interceptor chain over an in-memory connection; oracle: every call returns a gRPC status, no handler "
+              "panic, a trivial follow-up call still works, and a non-OK answer leaves a full dump of the five tables unchanged; every case is non-trivial (each request carries boundary "
+              "values on a populated server); distinct by hash of (method, request)"),
+        assumptions=["a failing Pull / StreamingPull may still refresh subscriptions.expires_at (documented separate transaction)", "handler panics are caught by a recover shim placed innermost in the interceptor chain and counted as crashes",
+                     "SQLite backend only"],
+        quick=dict(checks=400, timeout=900),
+        thorough=dict(checks=2500, shards=16, timeout=3000),
+    ),
 }
